@@ -141,6 +141,7 @@ func c18IntentRT() {
 		// one-byte length field, or a grant type whose data has no encoding
 		tooLong := verifOr(len(in.TargetUsername) > 255, verifAnd(in.GrantType == Command, len(in.AssociatedData.CommandGrantData.Cmd) > 255))
 		verifAssert(verifOr(tooLong, verifOr(in.GrantType == LocalPF, in.GrantType == RemotePF)), "C18: an intent whose fields all fit their length fields (user name and command of up to 255 bytes) is encoded, not refused half-way")
+		verifAssert(len(w.b) == 0, "C18: a message that cannot be represented is rejected when encoding - nothing of it reaches the stream (a partial message would mis-frame whatever the sender writes next on the same connection)")
 		return
 	}
 	verifCover("accepted")
